@@ -92,6 +92,8 @@ def oracle(case, out):
     if fin['cout'] + fin['cpend'] != queued:
         return 'client received %d + %d still buffered != %d queued' % (len(fin['cout']), len(fin['cpend']), len(queued))
     if client_send_error(out, case):
+        if fin['res'] != 0 and case.get('handler', 'http') == 'http' and fin['uclosed'] == 1:
+            return 'the client went away during the final flush and the upstream socket was left open (close callbacks skipped): %s' % fin['client_log'][-3:]
         return None                       # the client went away: "provided it keeps reading" does not apply
     # prompt: once the upstream's EOF / error has been consumed or a rejection path asked for teardown, the first call
     # that leaves the client buffer empty must be the one that returns True (no later than that)
@@ -114,6 +116,9 @@ def oracle(case, out):
             return ('tunnel handler closed the client connection with %d of %d queued bytes undelivered (upstream closed?)'
                     % (len(queued) - len(fin['cout']), len(queued)))
         return None
+    if fin['uclosed'] == 1:
+        # whatever the final flush ran into, the close callbacks must run: the upstream socket may not be left open (faabfc0)
+        return 'the client connection was shut down but the upstream socket was left open (close callbacks skipped?): %s' % fin['client_log'][-3:]
     threaded = bool(case.get('threaded'))
     if threaded:
         # shutdown()'s blocking flush: complete delivery whenever the scripted selector let the client keep reading
